@@ -250,7 +250,9 @@ structure FinLayC (P : CMode → Prop) (s sF : State) (len : Nat) (mac : Option 
     rs.map (·.r) = b.an ++ b.ns ++ (b.ar ++ optRecs' s.edns ++ tsigRecs s.tsig mac) ∧
     (∀ it ∈ qs, P it.m) ∧ (∀ it ∈ rs, P it.m) ∧ qs.map (·.m) = mb.qs ∧
     rs.map (·.m) = mb.an ++ mb.ns ++ (mb.ar ++ (optRecs' s.edns).map (fun _ => s.mode) ++
-      (tsigRecs s.tsig mac).map (fun _ => s.mode))
+      (tsigRecs s.tsig mac).map (fun _ => s.mode)) ∧
+    -- the items are those of the state before `finish`, followed by the pseudo-records
+    ∃ rs0 ex, rs = rs0 ++ ex ∧ QChainC s qs 12 s.rrStart ∧ RChainC s rs0 s.rrStart s.cursor
 
 theorem finishWithMac_finLayC (macFn : Tsig → List UInt8 → List UInt8) (s : State) (b : Body) (mb : MBody)
     (hI : I s) (hL : CLay P s b mb) (len : Nat) (mac : Option (List UInt8)) (sF : State)
@@ -355,7 +357,7 @@ theorem finishWithMac_finLayC (macFn : Tsig → List UInt8 → List UInt8) (s : 
       rcases hT with ⟨hts, e, hlen⟩ | ⟨ts, rdata, hts, hlen, hadd, hrd⟩
       · subst e
         refine ⟨w1, hlen, hhdr1, ?_, qs, rs ++ o1, hq1, hr1, hqm, ?_, hqP, hP1, hqM, by
-          rw [List.map_append, hrM, homM, hts]; simp [tsigRecs, List.append_assoc]⟩
+          rw [List.map_append, hrM, homM, hts]; simp [tsigRecs, List.append_assoc], rs, o1, rfl, hq, hr⟩
         · intro i hi
           rw [hl8] at hi
           rw [hpre1 _ (by omega)]
@@ -387,7 +389,7 @@ theorem finishWithMac_finLayC (macFn : Tsig → List UInt8 → List UInt8) (s : 
             rw [List.map_append, List.map_append, hrM, homM, hts]
             simp only [List.map_cons, List.map_nil, tsigRecs, hitm2, List.append_assoc]
             show _ ++ (_ ++ (_ ++ (_ ++ [s1.mode]))) = _
-            rw [hm1]⟩
+            rw [hm1], rs, o1 ++ [it], by simp [List.append_assoc], hq, hr⟩
         · intro i hi
           rw [hl8] at hi
           rw [e2.pre _ (by show 4 + i < s1.cursor; omega), hpre1 _ (by omega)]
@@ -433,7 +435,7 @@ theorem finish_decodes_content (macFn : Tsig → List UInt8 → List UInt8) (s :
       have hcF : sF.cursor ≤ sF.octets.size := by omega
       have hmsz : m.size = sF.cursor := by rw [← hm, hlc]; exact extract_size _ _ hcF
       have hle : sF.cursor ≤ 65535 := by omega
-      obtain ⟨wF, _, hhdr, hcnt, qs, rs, hq, hr, hqm, hrm, hqP, hrP, _, _⟩ := finishWithMac_finLayC macFn s b mb hI hL len mc sF hw hle
+      obtain ⟨wF, _, hhdr, hcnt, qs, rs, hq, hr, hqm, hrm, hqP, hrP, _, _, _⟩ := finishWithMac_finLayC macFn s b mb hI hL len mc sF hw hle
       rw [hlc] at hm
       subst hm
       have hsz' := extract_size sF.octets sF.cursor hcF
